@@ -1,7 +1,7 @@
 (** C18 — Encoders and their decoders are mutual inverses on their documented domains.
     Property theorems only; every proof is [exact lemma]. *)
 From Coq Require Import List ZArith Bool Lia.
-From UV Require Import Model.Codec Proofs.CodecDigits Proofs.CodecUtf Proofs.CodecBin.
+From UV Require Import Model.Codec Proofs.CodecDigits Proofs.CodecUtf Proofs.CodecBin Proofs.CodecBinStruct.
 Import ListNotations.
 Open Scope Z_scope.
 
@@ -17,11 +17,21 @@ Theorem C18_antibase_base : forall len b sh ns,
   Base.anti_base b (fst (Base.base len b sh ns)) (snd (Base.base len b sh ns)) = (sh, ns).
 Proof. exact BaseP.antibase_base. Qed.
 
-(** the row length the implementation computes for ⊥ 3 243 (5, pinned by the tie) is one short *)
-Theorem C18_antibase_base_short_refuted :
-  exists len b sh ns, 2 <= b /\ Forall (fun n => 0 <= n < 2 ^ 53) ns /\
-    Base.anti_base b (fst (Base.base len b sh ns)) (snd (Base.base len b sh ns)) <> (sh, ns).
-Proof. exact BaseP.antibase_base_short_refuted. Qed.
+(** the same with the row length computed as the (repaired) implementation does: the largest
+    `digits_needed`, i.e. the floating-point estimate plus the correction digit.  The only premise
+    about the float logarithm is that its floor is at most one digit short ([est_close]; the tie
+    checks on every generated case that the implementation's row length is exactly the number of
+    digits needed) *)
+Theorem C18_antibase_base_auto : forall (est : Z -> Z -> nat) b, 2 <= b -> forall sh ns,
+  Forall (BaseP.est_close est b) ns -> Z.of_nat (length ns) = zprod sh ->
+  Base.anti_base b (fst (Base.base_auto true est b sh ns)) (snd (Base.base_auto true est b sh ns)) = (sh, ns).
+Proof. exact BaseP.antibase_base_auto. Qed.
+
+(** record of the defect repaired by fix dfd90e9 (model of the code before it: no correction digit) *)
+Theorem C18_antibase_base_short_refuted_pre :
+  exists est b sh ns, 2 <= b /\ Forall (fun n => 0 <= n < 2 ^ 53) ns /\ Forall (BaseP.est_close est b) ns /\
+    Base.anti_base b (fst (Base.base_auto false est b sh ns)) (snd (Base.base_auto false est b sh ns)) <> (sh, ns).
+Proof. exact BaseP.antibase_base_short_refuted_pre. Qed.
 
 (** °utf₈ utf₈ s = s for all strings of Unicode scalar values (astral and combining included) *)
 Theorem C18_un_utf8_utf8 : forall cps, Forall Utf8.valid_scalar cps -> Utf8.un_utf8 (Utf8.utf8 cps) = Some cps.
@@ -35,25 +45,19 @@ Proof. exact Utf8P.utf8_un_utf8. Qed.
 Theorem C18_un_utf16_utf16 : forall cps, Forall Utf8.valid_scalar cps -> Utf16.un_utf16 (Utf16.utf16 cps) = Some cps.
 Proof. exact Utf16P.un_utf16_utf16. Qed.
 
-(** ⌝bytes f (bytes f x) = x for u16 i16 u32 i32 u64 i64 u128 i128 (any width > 1), either endianness *)
+(** ⌝bytes f (bytes f x) = x for u8 i8 u16 i16 u32 i32 u64 i64 u128 i128 (any width >= 1), either endianness *)
 Theorem C18_decode_encode_bytes : forall f big sh ns,
-  (1 < Bytes.width f)%nat -> Forall (BytesP.in_range f) ns -> Z.of_nat (length ns) = zprod sh ->
-  Bytes.decode f big (fst (Bytes.encode f big sh ns)) (snd (Bytes.encode f big sh ns)) = Some (sh, ns).
+  (0 < Bytes.width f)%nat -> Forall (BytesP.in_range f) ns -> Z.of_nat (length ns) = zprod sh ->
+  Bytes.decode true f big (fst (Bytes.encode f big sh ns)) (snd (Bytes.encode f big sh ns)) = Some (sh, ns).
 Proof. exact BytesP.decode_encode_bytes. Qed.
 
-Theorem C18_decode_encode_u8 : forall big sh ns, Forall (BytesP.in_range {| Bytes.signed := false; Bytes.width := 1 |}) ns ->
-  Bytes.decode {| Bytes.signed := false; Bytes.width := 1 |} big
-    (fst (Bytes.encode {| Bytes.signed := false; Bytes.width := 1 |} big sh ns))
-    (snd (Bytes.encode {| Bytes.signed := false; Bytes.width := 1 |} big sh ns)) = Some (sh, ns).
-Proof. exact BytesP.decode_encode_u8. Qed.
-
-(** the i8 format of the current code does not round-trip (shape handling) *)
-Theorem C18_decode_encode_i8_refuted :
+(** record of the defect repaired by fix 821d336 (model of the code before it) *)
+Theorem C18_decode_encode_i8_refuted_pre :
   exists big sh ns, Forall (BytesP.in_range {| Bytes.signed := true; Bytes.width := 1 |}) ns /\ Z.of_nat (length ns) = zprod sh /\
-    Bytes.decode {| Bytes.signed := true; Bytes.width := 1 |} big
+    Bytes.decode false {| Bytes.signed := true; Bytes.width := 1 |} big
       (fst (Bytes.encode {| Bytes.signed := true; Bytes.width := 1 |} big sh ns))
       (snd (Bytes.encode {| Bytes.signed := true; Bytes.width := 1 |} big sh ns)) <> Some (sh, ns).
-Proof. exact BytesP.decode_encode_i8_refuted. Qed.
+Proof. exact BytesP.decode_encode_i8_refuted_pre. Qed.
 
 (** binary / °binary, numeric payload: every element written with the width class the encoder
     selects (U8..I64 / F32 / F64, chosen from min/max/integrality/f32-exactness of the whole array)
@@ -68,12 +72,27 @@ Theorem C18_binary_num_roundtrip : forall (ops : Bin.numops), BinP.num_laws ops 
   end.
 Proof. exact BinP.binary_num_roundtrip. Qed.
 
+(** °binary (binary v) matches v, for every value without map keys whose header and payload are
+    within the format's limits ([BinS.wf]: flags <= 15, label valid UTF-8 shorter than 2^32, rank <= 255,
+    dims < 2^32, element count = product of the shape, f64 patterns < 2^64, bytes < 256, characters
+    scalar values) and nested at most MAX_DEPTH = 32 deep: the encoder succeeds, and the decoder --
+    including the element-count guard of 5718f7d -- returns a value with the same flags, label and shape
+    whose payload matches ([BinS.bmatch]: numbers equal up to the sign of zero, possibly stored as
+    bytes; bytes, characters, complex bit patterns equal; boxes element-wise), leaving [rest] unread *)
+Theorem C18_from_binary_to_binary : forall (ops : Bin.numops), BinP.num_laws ops ->
+  forall v, BinS.wf v -> (BinS.height v <= Bin.MAX_DEPTH)%nat ->
+  exists bs, Bin.to_binary_top ops v = Some bs /\
+    (exists v', Bin.from_binary_top ops bs = Some v' /\ BinS.bmatch ops v v') /\
+    forall rest, exists v', Bin.from_binary ops (S Bin.MAX_DEPTH) (bs ++ rest) = Some (v', rest) /\ BinS.bmatch ops v v'.
+Proof. exact BinS.from_binary_to_binary. Qed.
+
 (** the laws are satisfiable: an instance where a "float" is the integer it denotes *)
 Theorem C18_num_laws_inhabited : exists ops, BinP.num_laws ops.
 Proof. exact BinP.num_laws_inhabited. Qed.
 
 (** non-vacuity: premises are met by non-trivial inputs and the codecs really transform them *)
 Example C18_nonvacuous :
+  Bytes.decode true {| Bytes.signed := true; Bytes.width := 1 |} false [3] [255; 2; 128] = Some ([3], [-1; 2; -128]) /\
   Bits.bits [2] [5; -1024] = Some ([2; 11], [1;0;1;0;0;0;0;0;0;0;0; 0;0;0;0;0;0;0;0;0;0;-1]) /\
   Utf8.utf8 [233; 8364; 119070] = [195;169; 226;130;172; 240;157;132;158] /\
   Forall Utf8.valid_scalar [233; 8364; 119070] /\
@@ -84,19 +103,46 @@ Example C18_nonvacuous :
         Bin.BLeaf {| Bin.alloc := true; Bin.flags := 0; Bin.label := [76]; Bin.shape := [] |} None (Bin.LChar [955])])
   = Some [32; 1; 2;0;0;0;  1; 1; 2;0;0;0; 1;0; 0;1;  144; 0; 1;0;0;0; 76; 0; 0; 2;0;0;0; 206;187].
 Proof.
-  split; [vm_compute; reflexivity|]. split; [vm_compute; reflexivity|].
+  split; [vm_compute; reflexivity|]. split; [vm_compute; reflexivity|]. split; [vm_compute; reflexivity|].
   split; [repeat constructor; unfold Utf8.valid_scalar; lia|].
   split; vm_compute; reflexivity.
 Qed.
 
+Example C18_nonvacuous_binary :
+  let v := Bin.BBox {| Bin.alloc := false; Bin.flags := 0; Bin.label := []; Bin.shape := [2] |} None
+       [Bin.BLeaf {| Bin.alloc := false; Bin.flags := 4; Bin.label := []; Bin.shape := [2] |} None (Bin.LNum [4607182418800017408; 4643211215818981376]);
+        Bin.BBox {| Bin.alloc := true; Bin.flags := 0; Bin.label := [76]; Bin.shape := [] |} None
+          [Bin.BLeaf {| Bin.alloc := false; Bin.flags := 0; Bin.label := []; Bin.shape := [1] |} None (Bin.LChar [955])]] in
+  BinS.wf v /\ BinS.height v = 2%nat /\
+  exists v', Bin.from_binary_top Bin.cops (match Bin.to_binary_top Bin.cops v with Some b => b | None => [] end) = Some v'
+             /\ BinS.bmatch Bin.cops v v'.
+Proof.
+  cbv zeta. split; [|split; [reflexivity|]].
+  - cbn [BinS.wf BinS.wf_leaf Bin.shape zprod fold_right length]. unfold BinS.wf_hdr, BinP.wfnum, Utf8.valid_scalar.
+    cbn [Bin.flags Bin.label Bin.shape length Utf8.un_utf8].
+    repeat match goal with
+    | |- _ /\ _ => split
+    | |- Forall _ _ => constructor
+    | |- exists _, Some _ = Some _ => eexists; reflexivity
+    | |- exists _, _ => eexists; vm_compute; reflexivity
+    | |- True => exact I
+    | |- @eq (option _) _ _ => reflexivity
+    | |- @eq Z _ _ => reflexivity
+    | |- (_ <= _)%nat => cbn; lia
+    | |- _ => cbn; lia
+    end.
+  - eexists. split; [vm_compute; reflexivity|]. vm_compute. repeat split; repeat constructor; auto.
+Qed.
+
 Print Assumptions C18_unbits_bits.
 Print Assumptions C18_antibase_base.
-Print Assumptions C18_antibase_base_short_refuted.
+Print Assumptions C18_antibase_base_auto.
+Print Assumptions C18_antibase_base_short_refuted_pre.
 Print Assumptions C18_un_utf8_utf8.
 Print Assumptions C18_utf8_un_utf8.
 Print Assumptions C18_un_utf16_utf16.
 Print Assumptions C18_decode_encode_bytes.
-Print Assumptions C18_decode_encode_u8.
-Print Assumptions C18_decode_encode_i8_refuted.
+Print Assumptions C18_decode_encode_i8_refuted_pre.
 Print Assumptions C18_binary_num_roundtrip.
+Print Assumptions C18_from_binary_to_binary.
 Print Assumptions C18_num_laws_inhabited.
